@@ -629,7 +629,12 @@ func (o *c07Oracle) injectData() {
 	}
 	payload, isStun := o.payload()
 	if isStun {
-		return
+		// a datagram the classifier takes for STUN (magic cookie in place) whose body is not a decodable STUN
+		// message - an RTP packet whose timestamp happens to equal the cookie, or plain junk: whatever the
+		// agent does with it, the reader never yields it (sent from a known source, it would otherwise pass
+		// the source check)
+		kind += "/stun-like"
+		c.Probe("inbound-stun-like-junk")
 	}
 	dg := d.W.Inject(src, dst, payload, "data "+kind)
 	c.Fault("data-inject:" + kind)
